@@ -136,6 +136,9 @@ def run(ctx):
     ctx.ob("R2", "count-vs-enumerate-clock", len({tuple(v) for v in clocks.values()}) == 1,
            what="counting and enumerating accessors consult different clocks: %s" % clocks, where=P.fn("LpgStore::node_count").loc())
 
+    # ---- R2b whole-graph enumerators and counters draw their entity ids from the primary version table
+    enumerators_use_primary(ctx, P, E, "R2b")
+
     # ---- R4 conservative summaries
     PC = "grafeo_core::graph::lpg::property::PropertyColumn"
     n4 = 0
@@ -226,3 +229,29 @@ def zone_map_definite_no(ctx, P, rule):
                     "definite order (incomparable values included): a chunk holding matching values of another type is pruned, and "
                     "the range / filter path returns fewer rows than a scan" % (short_id(f.id), bad), where=f.loc(bad[0] if bad else None))
     ctx.floor(rule, n, 3, "zone-map predicates that compare a probe with min/max")
+
+
+def enumerators_use_primary(ctx, P, E, rule):
+    """node_count / node_ids / all_nodes (edge_count / all_edges) enumerate the keys of the primary version table
+    (LpgStore.nodes / .edges, or the tiered version indexes). A derived side table (label map, label index, property
+    columns, adjacency) is not guaranteed to have an entry for every live entity, so an enumerator that takes its ids
+    from one silently skips entities - in the copy paths of export / save / to_memory the copy then lacks them
+    (shared by C07 and C14)."""
+    L = common.LPG
+    vc = common.versioned_cells(P)
+    n = 0
+    for m, role in (("node_count", "nodes"), ("node_ids", "nodes"), ("all_nodes", "nodes"), ("edge_count", "edges"), ("all_edges", "edges")):
+        f = P.fn("LpgStore::" + m)
+        n += 1
+        own = []
+        for g in P.family(f):
+            own += [a for a in E.own_acc(g) if a.cell[0] == L]
+        reads_primary = any(a.cell[1] == vc[role] for a in own)
+        side = sorted({a.cell[1] for a in own if common.LPG_CELLS.get(a.cell[1]) in ("index", "data") and a.cell[1] != vc[role]})
+        ctx.ob(rule, "LpgStore::%s#ids-from-primary" % m, reads_primary and not side,
+               what="LpgStore::%s %s: entities without an entry there are skipped (%s)"
+                    % (m, ("takes its ids from the derived structure(s) %s instead of LpgStore.%s" % (side, vc[role])) if not reads_primary
+                       else ("also reads derived structure(s) %s while enumerating" % side),
+                       "export / save / to_memory copy what this enumerates" if m.startswith("all_") else "counts and scans disagree"),
+               where=f.loc())
+    ctx.floor(rule, n, 5, "whole-graph enumerators")
